@@ -238,6 +238,18 @@ class Simulator(Computer, _mixins.CodeMixin):
 
         self._validate_measurements_at_end(instructions)
 
+    def _validate_measurements_with_shots_none(
+        self, instructions: List[Instruction]
+    ) -> None:
+        for instruction in instructions:
+            if isinstance(instruction, Measurement) and not isinstance(
+                instruction, self._measurement_classes_allowed_with_shots_none
+            ):
+                raise InvalidParameter(
+                    f"The measurement '{type(instruction).__name__}' instruction does "
+                    f"not support 'shots=None' using '{self.__class__.__name__}'."
+                )
+
     def _validate_instructions(self, instructions: List[Instruction], d: int) -> None:
         self._validate_instruction_existence(instructions)
         self._validate_instruction_modes(instructions, d)
@@ -306,18 +318,6 @@ class Simulator(Computer, _mixins.CodeMixin):
         is_instruction_resolved = instruction._is_resolved()
 
         new_branches = []
-
-        if (
-            isinstance(instruction, Measurement)
-            and shots is None
-            and not isinstance(
-                instruction, self._measurement_classes_allowed_with_shots_none
-            )
-        ):
-            raise InvalidParameter(
-                f"The measurement '{type(instruction).__name__}' instruction does not "
-                f"support 'shots=None' using '{self.__class__.__name__}'."
-            )
 
         for branch in branches:
             if not instruction._is_condition_met(branch.outcome):
@@ -438,6 +438,9 @@ class Simulator(Computer, _mixins.CodeMixin):
         d = self._try_to_infer_d_from_instructions(instructions)
 
         self._validate_instructions(instructions, d)
+
+        if shots is None:
+            self._validate_measurements_with_shots_none(instructions)
 
         if initial_state is not None:
             self._validate_initial_state(initial_state, d)
